@@ -16,6 +16,7 @@ type Site struct {
 	Callee string
 	Static *ssa.Function // nil for builtins, invokes and dynamic calls
 	Args   []*Term       // receiver first for static method calls (as in SSA)
+	Recv   *Term         // interface receiver of an invoke, function value of a dynamic call
 }
 
 // Value returns the call as a value (nil for go/defer).
@@ -42,6 +43,9 @@ func Calls(fn *ssa.Function, match func(name string) bool) []Site {
 			}
 			s := Site{Fn: fn, Instr: c, Callee: name, Static: c.Common().StaticCallee()}
 			s.Args = e.ArgTerms(c)
+			if c.Common().IsInvoke() || name == "dyn" {
+				s.Recv = e.Select(c.Common().Value, nil, c)
+			}
 			out = append(out, s)
 		}
 	}
@@ -315,3 +319,38 @@ func ShortFunc(fn *ssa.Function) string {
 	}
 	return s
 }
+
+// LoopVar recognises a counting loop variable: a two-edge phi whose back-edge value is phi + k for a
+// constant k. It returns the initial value term and the step.
+func LoopVar(v ssa.Value) (init *Term, step int64, ok bool) {
+	p, isPhi := v.(*ssa.Phi)
+	if !isPhi || len(p.Edges) != 2 {
+		return nil, 0, false
+	}
+	b := p.Block()
+	e := For(p.Parent())
+	for i, ed := range p.Edges {
+		if !b.Dominates(b.Preds[i]) {
+			continue
+		}
+		bo, isBin := ed.(*ssa.BinOp)
+		if !isBin || bo.Op != token.ADD {
+			return nil, 0, false
+		}
+		var k int64
+		var okc bool
+		if bo.X == ssa.Value(p) {
+			k, okc = constInt(bo.Y)
+		} else if bo.Y == ssa.Value(p) {
+			k, okc = constInt(bo.X)
+		}
+		if !okc {
+			return nil, 0, false
+		}
+		return e.Term(p.Edges[1-i]), k, true
+	}
+	return nil, 0, false
+}
+
+// InLoop reports whether the block lies on a cycle.
+func InLoop(b *ssa.BasicBlock) bool { return For(b.Parent()).reach[b][b] }
